@@ -1,9 +1,9 @@
 (* C03 — the headline round trip at the level of EncryptSymmetric / DecryptSymmetric: for every
    algorithm name, whatever EncryptSymmetric returns decrypts back to the plaintext under the
-   same key, nonce and associated data.  The only cryptographic premise is that AES decryption
-   inverts AES encryption ([aes_inverts], tested by the FIPS-197 KATs, not proved in
-   Kit.Crypto); AES-GCM and (X)ChaCha20-Poly1305 need no premise at all. *)
-From Kit Require Import C03.Model C03.Proofs_pad C03.Proofs_schemes C03.Proofs.
+   same key, nonce and associated data.  Inside the Section the AES families use the hypothesis
+   that AES decryption inverts AES encryption ([aes_inverts]); C03/Proofs_AES.v proves it for the
+   Gallina AES of Kit.Crypto, and the theorems at the end of this file are premise-free. *)
+From Kit Require Import C03.Model C03.Proofs_pad C03.Proofs_schemes C03.Proofs C03.Proofs_AES.
 From Coq Require Import Lia Arith.
 
 Notation length := List.length.
@@ -148,6 +148,49 @@ Section WithAES.
     - apply chacha_family_roundtrip.
   Qed.
 End WithAES.
+
+(* ------------------------------------------------------------------------------------- *)
+(** * The premise discharged: AES decryption inverts AES encryption (C03/Proofs_AES.v), so the
+      AES instances hold unconditionally *)
+
+Theorem aes_inverts_holds (key : list N) : aes_inverts key.
+Proof.
+  intros b Hl Hok. unfold aesD, aesE.
+  apply aes_decrypt_encrypt_block_ks; auto using aes_expand_bst.
+Qed.
+
+Theorem symmetric_roundtrip_aes (vkw vopen : variant) (alg : string) (key : keyobj)
+        (nonce aad pt ct tag : list N) :
+  bytes_ok nonce = true -> bytes_ok pt = true ->
+  encrypt_symmetric Fixed alg key nonce aad pt = Ok (ct, tag) ->
+  decrypt_symmetric vkw vopen alg key nonce tag aad ct = Ok pt.
+Proof. exact (symmetric_roundtrip aes_inverts_holds vkw vopen alg key nonce aad pt ct tag). Qed.
+
+(* AES-CBC with and without PKCS#7 as EncryptSymmetric drives it *)
+Theorem aes_cbc_roundtrip (alg : string) (nopad : bool) (key iv pt ct tag : list N) :
+  bytes_ok iv = true -> bytes_ok pt = true ->
+  encrypt_cbc alg nopad key iv pt = Ok (ct, tag) -> decrypt_cbc alg nopad key iv ct = Ok pt.
+Proof. exact (cbc_family_roundtrip aes_inverts_holds alg nopad key iv pt ct tag). Qed.
+
+(* aeskw.Wrap / Unwrap over AES *)
+Theorem aeskw_roundtrip_aes (v : variant) (key cek c : list N) :
+  bytes_ok cek = true -> aeskw_wrap Fixed key cek = Ok c -> aeskw_unwrap v key c = Ok cek.
+Proof. exact (aeskw_roundtrip v key cek c (aes_inverts_holds key)). Qed.
+
+Theorem aeskw_wrap_succeeds_aes (vw v : variant) (key cek : list N) :
+  length cek mod 8 = 0 -> 8 <= length cek -> bytes_ok cek = true ->
+  exists c, aeskw_wrap vw key cek = Ok c /\ aeskw_unwrap v key c = Ok cek.
+Proof. exact (aeskw_wrap_succeeds vw v key cek (aes_inverts_holds key)). Qed.
+
+(* the four aescbcaead AEADs over AES *)
+Theorem aescbcaead_roundtrip_aes (v : variant) (k : cbchmac_kind) (key nonce pt aad : list N) (c : cbchmac) :
+  aescbcaead_new k key = Some c -> length nonce = 16 -> bytes_ok nonce = true -> bytes_ok pt = true ->
+  exists out, aescbcaead_seal k c nonce pt aad = Ok out /\ aescbcaead_open v k c nonce out aad = Ok pt.
+Proof.
+  intros Hnew. exact (aescbcaead_roundtrip v k key nonce pt aad c Hnew (aes_inverts_holds _)).
+Qed.
+
+Print Assumptions symmetric_roundtrip_aes.
 
 (* non-vacuity: an encryption that succeeds (RFC 3394 4.1 through the A128KW name) *)
 Example symmetric_roundtrip_nonvacuous :
